@@ -92,6 +92,8 @@ enum Shape {
 	EchoStr,
 	/// `need_u64` with params `[7<spaces>]`: reply is tiny, so the response limit cannot matter at all
 	U64Ws,
+	/// like EchoStr, but 1..127 bytes of the message are whitespace in front of the `{` (they count as message bytes)
+	LeadWs,
 }
 
 #[derive(Clone, Copy, Debug, PartialEq, Eq, Hash, Serialize, Deserialize)]
@@ -154,7 +156,7 @@ fn build_msg(shape: Shape, size: usize, msg_seed: u64) -> Option<Msg> {
 		(json!(s), format!("\"{s}\""))
 	};
 	let (method, open, close): (&'static str, &str, &str) = match shape {
-		Shape::EchoStr => ("echo_sync", "[\"", "\"]"),
+		Shape::EchoStr | Shape::LeadWs => ("echo_sync", "[\"", "\"]"),
 		Shape::U64Ws => ("need_u64", "[7", "]"),
 	};
 	let order = r.below(3);
@@ -164,9 +166,19 @@ fn build_msg(shape: Shape, size: usize, msg_seed: u64) -> Option<Msg> {
 	if size < fixed {
 		return None;
 	}
-	let pad_len = size - fixed;
+	let mut pad_len = size - fixed;
+	let lead: String = if shape == Shape::LeadWs {
+		if pad_len == 0 {
+			return None;
+		}
+		let n = (1 + r.below(127) as usize).min(pad_len);
+		pad_len -= n;
+		(0..n).map(|_| *r.pick(b" \t\r\n") as char).collect()
+	} else {
+		String::new()
+	};
 	let pad: String = match shape {
-		Shape::EchoStr => (0..pad_len).map(|_| *r.pick(ALNUM) as char).collect(),
+		Shape::EchoStr | Shape::LeadWs => (0..pad_len).map(|_| *r.pick(ALNUM) as char).collect(),
 		Shape::U64Ws => (0..pad_len).map(|_| ' ').collect(),
 	};
 	let params = format!("{open}{pad}{close}");
@@ -179,10 +191,10 @@ fn build_msg(shape: Shape, size: usize, msg_seed: u64) -> Option<Msg> {
 		1 => [m_method, m_params, m_id, m_jsonrpc],
 		_ => [m_id, m_jsonrpc, m_params, m_method],
 	};
-	let text = format!("{{{}}}", members.join(","));
+	let text = format!("{lead}{{{}}}", members.join(","));
 	assert_eq!(text.len(), size, "harness: message builder size model");
 	let result = match shape {
-		Shape::EchoStr => params.clone(),
+		Shape::EchoStr | Shape::LeadWs => params.clone(),
 		Shape::U64Ws => "7".to_string(),
 	};
 	Some(Msg { text, id, id_text, method, params, result })
@@ -902,7 +914,7 @@ fn run_job(job: Job) -> (Evidence, Vec<Violation>) {
 		let mut env = Env::new(job.req, job.resp);
 		let mut r = Rng::new(job.seed);
 		for (size, origin) in &job.sizes {
-			for shape in [Shape::EchoStr, Shape::U64Ws] {
+			for shape in [Shape::EchoStr, Shape::U64Ws, Shape::LeadWs] {
 				for p in cell_probes(&mut r, job.req, job.resp, *size, shape, origin) {
 					let Some(m) = build_msg(p.shape, p.size, p.msg_seed) else {
 						ev.count("skipped_size_below_shortest_message", 1);
@@ -1088,7 +1100,7 @@ async fn tcp_config(req: u32, resp: u32, seed: u64, rounds: u64) -> (Evidence, T
 	let l = req as usize;
 	for _ in 0..rounds {
 		for size in [l - 1, l, l + 1, 2 * l, 8 * l] {
-			for shape in [Shape::EchoStr, Shape::U64Ws] {
+			for shape in [Shape::EchoStr, Shape::U64Ws, Shape::LeadWs] {
 				for p in tcp_cell_probes(&mut r, req, resp, size, shape) {
 					let Some(m) = build_msg(p.shape, p.size, p.msg_seed) else { continue };
 					tcp_probe_with_retry(&mut env, &p, &m, &mut ev, &mut out).await;
@@ -1202,7 +1214,7 @@ fn main() {
 		"probe = one valid call padded to an exact byte size (echo_sync with a padded string param; need_u64 padded with \
 		 spaces inside params) sent through one entry point under one (max_request_body_size, max_response_body_size) \
 		 pair. Grid part (enumerated completely; `exhaustive` refers to this grid only, not to 'all sizes'): req x resp in \
-		 {64,100,1000,4096,65536}^2 (25 pairs, 20 unequal) x sizes {req-1, req, req+1, 2*req, 8*req} x 2 message shapes x \
+		 {64,100,1000,4096,65536}^2 (25 pairs, 20 unequal) x sizes {req-1, req, req+1, 2*req, 8*req} x 3 message shapes x \
 		 entry points {TowerService WebSocket; TowerService direct call, http::call_with_service_builder and \
 		 http::call_with_service each with Content-Length true/absent/understated x 1..3 body chunks; TowerService and \
 		 the low-level hyper service over an in-memory HTTP/1.1 connection with Content-Length and with 1..3 transfer \
@@ -1249,7 +1261,7 @@ fn main() {
 	ev.set(
 		"exhaustive_scope",
 		json!(format!(
-			"the grid only: 25 (req, resp) pairs x 5 sizes ({grid_cells} cells) x 2 shapes x 37 entry-point/body variants, every cell executed; sizes around resp, random configurations and the TCP part are sampling"
+			"the grid only: 25 (req, resp) pairs x 5 sizes ({grid_cells} cells) x 3 shapes x 37 entry-point/body variants, every cell executed; sizes around resp, random configurations and the TCP part are sampling"
 		)),
 	);
 
